@@ -467,15 +467,17 @@ theorem releaseAbsorbedKeysIdx_eq (s : State) : releaseAbsorbedKeysIdx s = some 
 theorem addPhase2Idx_eq (s : State) (newKey : Key) (m : Mapping) :
     addPhase2Idx s newKey m = some (addPhase2 s newKey m) := by
   unfold addPhase2Idx addPhase2
-  cases producesActionKey m with
-  | false => rfl
-  | true =>
-    simp only [if_true]
-    rw [releaseActionMappingsIdx_eq]
-    simp only
+  have h1 : (if producesActionKey m then releaseActionMappingsIdx s else some (s, [])) =
+      some (if producesActionKey m then releaseActionMappings s else (s, [])) := by
     split
-    · rw [releaseAbsorbedKeysIdx_eq]
+    · rw [releaseActionMappingsIdx_eq]
     · rfl
+  rw [h1]
+  generalize (if producesActionKey m then releaseActionMappings s else (s, [])) = r1
+  simp only
+  split
+  · rw [releaseAbsorbedKeysIdx_eq]
+  · rfl
 
 theorem addNewMappingIdx_eq (s : State) (newKey : Key) (m : Mapping) :
     addNewMappingIdx s newKey m = some (addNewMapping s newKey m) := by
